@@ -25,6 +25,9 @@ TRUSTED = ["Coq 8.16.1 kernel (coqc), no axioms (Print Assumptions: closed under
            "harness/drv_heap.c (callback log, handle table), xalloc.c, gcc -fsanitize=address,undefined",
            "the Python ownership simulation in checks/C05.py (direct oracle)"]
 ASSUMPTIONS = ["single-threaded use (the threaded build is property C18)",
+               "not covered: json_object_deep_copy with the default shallow copy of a node that carries a caller's registration "
+               "whose serializer is json_object_userdata_to_json_string (the library then duplicates that registration for the "
+               "copy); the generator does not produce it and the model would answer -1",
                "allocation never fails in these histories (faults are property C08)",
                "container-detaches-then-releases order of the model is equivalent to the C order release-then-store on acyclic heaps "
                "(checked by the differential run, not proved)",
@@ -189,9 +192,15 @@ class Sim:
             if i < self.nxt:
                 raise Bad("id reuse")
             kind = {"newobj": "o", "newarr": "a"}.get(c, "s")
-            if c not in ("newobj", "newarr", "newbool", "newdbl", "newint", "newstr"):
+            if c not in ("newobj", "newarr", "newbool", "newdbl", "newint", "newstr", "newdbls"):
                 raise Bad("ctor")
-            self.n[i] = dict(kind=kind, kids=[], cb=0, ud=True)
+            # st: the type the value setters look at; ser: what the serializer does with userdata
+            # ('strud' = prints it as a string); lib: the library's own retained-text registration of
+            # json_object_new_double_s (not a caller's registration: no caller callback is involved)
+            self.n[i] = dict(kind=kind, kids=[], cb=0, ud=True, lib=False, ser="default",
+                             st={"newbool": "bool", "newdbl": "dbl", "newdbls": "dbl", "newint": "int", "newstr": "str"}.get(c))
+            if c == "newdbls":
+                self.n[i].update(cb=None, lib=True, ser="strud")
             self.L[i] = 1
             self.nxt = i + 1
             r["ret"] = i
@@ -204,6 +213,8 @@ class Sim:
             if self.unfold_size(src, 400) >= 400:
                 raise Bad("copy too large")
             custom = a[0] == "copy"
+            if not custom and self._stock_reg(src):
+                raise Bad("default copy of a stock-serializer registration")
             if not custom and self._any_cb(src):
                 r["ret"] = -1       # the default shallow copy cannot copy unknown userdata: failure, nothing changes
             else:
@@ -270,14 +281,35 @@ class Sim:
             # reg h<i> <registration number> <userdata non-NULL> <delete callback> <0 set_userdata | 1 | 2 set_serializer>
             # the registration that ends here has its callback invoked now, exactly once,
             # whatever its userdata was
-            i, t = self.handle(a[1]), int(a[2])
+            i, t, ser = self.handle(a[1]), int(a[2]), int(a[5])
+            nd = self.n[i]
             if t < self.nxt:
                 raise Bad("registration number reuse")
-            if self.n[i]["cb"] is not None:
-                r["user"].append((i, self.n[i]["cb"]))
-            self.n[i]["cb"] = t if a[4] == "1" else None
-            self.n[i]["ud"] = a[3] == "1"
+            if ser == 0 and nd["ser"] in ("strud", "fmtud"):
+                raise Bad("the serializer in place reads the userdata as a string")
+            if ser == 3 and a[3] != "1":
+                raise Bad("json_object_userdata_to_json_string needs userdata")
+            if ser == 4 and nd["st"] != "dbl":
+                raise Bad("json_object_double_to_json_string on a non-double")
+            if nd["cb"] is not None:
+                r["user"].append((i, nd["cb"]))
+            nd["cb"] = t if a[4] == "1" else None
+            nd["ud"] = a[3] == "1"
+            nd["lib"] = False          # the library's own pair, if still there, is released silently
+            if ser:
+                nd["ser"] = {1: "default", 2: "custom", 3: "strud", 4: "fmtud"}[ser]
             self.nxt = t + 1
+        elif a[0] == "setv":
+            # a value setter never ends a caller's registration; json_object_set_double drops the
+            # library's own retained text (and nothing else)
+            i = self.handle(a[1])
+            nd = self.n[i]
+            want = {"bool": "bool", "int": "int", "int64": "int", "uint64": "int", "inc": "int", "dbl": "dbl",
+                    "str": "str", "strlen": "str"}[a[2]]
+            r["ret"] = 1 if nd.get("st") == want else 0
+            if r["ret"] and a[2] == "dbl" and nd["lib"]:
+                nd.update(lib=False, ud=False, ser="default")
+                self.nxt += 1       # the model numbers the internal set_serializer(NULL, NULL, NULL) call too
         elif a[0] == "ptrset":
             root, v = self.handle(a[1]), self.handle(a[3], True)
             r["ret"] = self._ptrset(root, unhex(a[2]), v, r)
@@ -387,6 +419,8 @@ class Sim:
             return None
         if self.unfold_size(v, 400) >= 400:
             raise Bad("copy too large")
+        if self._stock_reg(v):
+            raise Bad("default copy of a stock-serializer registration")
         if self._any_cb(v):
             raise Fail()
         return self._copy(v, False, True)
@@ -422,15 +456,27 @@ class Sim:
             return -1
         return 0
 
+    def _stock_reg(self, i):
+        """some node below carries a caller's registration whose serializer is the stock
+        json_object_userdata_to_json_string: the default deep copy duplicates such a registration
+        (strdup of the userdata, same delete function) — creation of registrations by the library on the
+        caller's behalf is outside this check"""
+        nd = self.n[i]
+        return (nd["ser"] == "strud" and not nd["lib"]) or \
+            any(c is not None and self._stock_reg(c) for _, c in nd["kids"])
+
     def _any_cb(self, i):
         nd = self.n[i]
-        return nd["cb"] is not None or nd["ud"] or any(c is not None and self._any_cb(c) for _, c in nd["kids"])
+        return nd["cb"] is not None or (nd["ud"] and not nd["lib"]) or \
+            any(c is not None and self._any_cb(c) for _, c in nd["kids"])
 
     def _copy(self, src, custom, anon=False):
         me = self.nxt
         self.nxt += 1
         nd = self.n[src]
-        self.n[me] = dict(kind=nd["kind"], kids=[], cb=0 if custom else None, ud=custom, anon=anon)
+        lib = nd["lib"] and not custom      # the default copy duplicates the library's retained text
+        self.n[me] = dict(kind=nd["kind"], kids=[], cb=0 if custom else None, ud=custom or lib, anon=anon, lib=lib,
+                          st=nd.get("st"), ser=("custom" if nd["ser"] == "custom" else "default") if custom else nd["ser"])
         self.L[me] = 0
         for key, c in nd["kids"]:
             self.n[me]["kids"].append([key, None if c is None else self._copy(c, custom, anon)])
@@ -546,7 +592,7 @@ class Gen:
 
     def new(self, what=None):
         rng = self.rng
-        what = what or rng.choice(["newobj", "newobj", "newarr", "newarr", "newint", "newstr", "newbool", "newdbl"])
+        what = what or rng.choice(["newobj", "newobj", "newarr", "newarr", "newint", "newstr", "newbool", "newdbl", "newdbls"])
         i = self.fresh()
         op = "h%d=%s" % (i, what)
         if what == "newint":
@@ -615,19 +661,41 @@ class Gen:
     def reg(self, i, u, d, ser, kind=None):
         return self.do("reg h%d %d %d %d %d" % (i, self.sim.nxt, u, d, ser), kind)
 
+    SETTERS = ["bool", "int", "int64", "uint64", "inc", "dbl", "str", "strlen"]
+    BY_TYPE = {"bool": ["bool"], "int": ["int", "int64", "uint64", "inc"], "dbl": ["dbl"], "str": ["str", "strlen"]}
+
     def reg_chain(self, i):
         """a node's registration replaced 1..4 times: userdata NULL or not x delete callback or not x
-        set_userdata / set_serializer(NULL fn) / set_serializer(custom fn), incl. the (NULL, NULL, NULL) reset"""
-        rng = self.rng
+        set_userdata / set_serializer with NULL, a custom function, json_object_userdata_to_json_string or
+        json_object_double_to_json_string, incl. the (NULL, NULL, NULL) reset; value setters of the node's
+        type (and of other types) in between: they must not end the registration"""
+        rng, sim = self.rng, self.sim
         for _ in range(rng.choice([1, 1, 2, 2, 3, 4])):
-            if not self.sim.live(i):
+            if not sim.live(i):
                 return
-            u, d, ser = rng.randint(0, 1), rng.randint(0, 1) if rng.random() < 0.8 else 1, rng.choice([0, 0, 1, 2])
+            nd = sim.n[i]
+            u, d = rng.randint(0, 1), rng.randint(0, 1) if rng.random() < 0.8 else 1
+            ser = rng.choice([0, 0, 1, 2, 3, 3, 4] if nd.get("st") == "dbl" else [0, 0, 1, 2, 3])
             if rng.random() < 0.15:
                 u, d, ser = 0, 0, 1
+            if ser == 3:
+                u = 1
+            if ser == 0 and nd["ser"] in ("strud", "fmtud"):
+                ser = rng.choice([1, 2, 3])
+                u = 1 if ser == 3 else u
             kind = ("reg-null-userdata-callback" if (d and not u) else "reg-reset" if not (u or d) else
-                    "reg-userdata-no-callback" if not d else "set_serializer" if ser else "set_userdata")
+                    "reg-userdata-no-callback" if not d else "reg-stock-serializer" if ser >= 3 else
+                    "set_serializer" if ser else "set_userdata")
             self.reg(i, u, d, ser, kind)
+            for _ in range(rng.choice([0, 1, 1, 2])):
+                self.setv(i)
+
+    def setv(self, i):
+        rng, nd = self.rng, self.sim.n[i]
+        mine = self.BY_TYPE.get(nd.get("st"))
+        w = rng.choice(mine) if mine and rng.random() < 0.8 else rng.choice(self.SETTERS)
+        self.do("setv h%d %s" % (i, w), "setter-on-registration" if nd["cb"] is not None else
+                "set_double-drops-retained-text" if nd["lib"] and w == "dbl" else "setter")
 
     def grow(self):
         """an object that mixes lent (constant) and copied member names and grows through one or
@@ -766,6 +834,10 @@ class Gen:
             src = self.pick(lambda i: True)
             if src is not None and sim.unfold_size(src, 40) < 40:
                 self.do("copy h%d=h%d" % (sim.nxt, src), "deep-copy")
+        elif r < 0.865:
+            i = self.pick(lambda i: self.sim.n[i]["kind"] == "s")
+            if i is not None:
+                self.setv(i)
         elif r < 0.88:
             i = self.pick(lambda i: True)
             if i is not None:
